@@ -14,7 +14,6 @@ import collections
 import json
 import os
 import re
-import sys
 import time
 import warnings
 
